@@ -69,3 +69,18 @@ PROPS["C16"] = dict(
     exhaustive_axes="(unpadded 0..320) x (blocksize 0..130); all final blocks over a 4-symbol alphabet for block sizes 1..6",
     assumptions=ASSUME_COMMON + ["for a padded length that is not a multiple of the block size, 'final block' means the last blocksize bytes (as the implementation and utils.h describe)"],
 )
+
+PROPS["C17"] = dict(
+    name="c17", sources=["props/c17.cpp"], engine="enumerator",
+    builds=[("plain", "native")],
+    builds_thorough=[("plain", "native"), ("plainclang", "native"), ("plain", "portable")],
+    level="exploration",
+    rule=("Each probe runs in a forked child of a non-sanitized build and its exit status / fatal signal is compared with a four-state model (RW/RO/NONE/freed). Sizes 0..3*page+1: every size within "
+          "17 of a page multiple and every 7th size between (thorough: all) x {fill pattern + first/last byte read/write + free must succeed; read of p[size] and write of p[size] must fault; "
+          "flipping p[-k] for k=1..16 then sodium_free must kill the process; read of the byte before the data pages must fault}; sodium_allocarray exact products; all 120 protection "
+          "histories of length 1..4 over {noaccess, readonly, readwrite} x 6 sizes x {read first/last, write first/last, free} with every mprotect call required to return 0; "
+          "in-process: sodium_malloc(size >= SIZE_MAX-4*page) and sodium_allocarray at count*size overflow boundaries return NULL with errno==ENOMEM, zero/small products succeed. "
+          "Non-trivial = size not a multiple of 16 or within 17 of a page boundary, or a history with >= 2 distinct states; distinct = (size, history, probe, k)."),
+    exhaustive_axes="all 120 protection histories of length <= 4; k = 1..16 for sizes near page boundaries",
+    assumptions=["non-sanitized gcc -O2 build so raw SIGSEGV/SIGBUS/SIGABRT are observed", "Linux mmap/mprotect page protection (HAVE_PAGE_PROTECTION path)"],
+)
